@@ -21,6 +21,7 @@ import (
 	"log/slog"
 	"os"
 	"path/filepath"
+	"strings"
 	"time"
 
 	"reservoir/cache"
@@ -135,6 +136,116 @@ func overwriteWindow(backend string, shards int, dir string) []failure {
 		fs = append(fs, failure{"overwrite-window", backend, shards, fmt.Sprintf("limit 1000, 800 bytes held, one key overwritten (200 -> 250 bytes) while another 50-byte key was stored: the cache was below its limit throughout, yet least-recently-used entries were evicted (old1 present=%v, old2 present=%v, size now %d)", has(c, old1), has(c, old2), c.VerifByteSize())})
 	}
 	return fs
+}
+
+// vanishing: a reader that delivers its data and, just before reporting EOF, runs f (the cache directory's content
+// disappears while the body streams in)
+type vanishing struct {
+	data []byte
+	f    func()
+}
+
+func (v *vanishing) Read(p []byte) (int, error) {
+	if len(v.data) == 0 {
+		if v.f != nil {
+			v.f()
+			v.f = nil
+		}
+		return 0, io.EOF
+	}
+	n := copy(p, v.data)
+	v.data = v.data[n:]
+	return n, nil
+}
+
+func counters(c hooks) (stored int64, entries int, bs, metricBytes, metricEntries int64) {
+	for _, hx := range c.VerifKeys() {
+		if sz, _, _, _, ok := c.VerifMeta(hx); ok {
+			stored += sz
+			entries++
+		}
+	}
+	return stored, entries, c.VerifByteSize(), metrics.Global.Cache.BytesCached.Get(), metrics.Global.Cache.CacheEntries.Get()
+}
+
+// renameFails (file backend): the body is copied completely, then the final rename fails because the temp file has
+// vanished. The store reports an error; nothing may stay booked for it.
+func renameFails(shards int, dir string) []failure {
+	cfg := config.NewDefault()
+	ctx, cancel := context.WithCancel(context.Background())
+	defer cancel()
+	metrics.Global.Cache.BytesCached.Set(0)
+	metrics.Global.Cache.CacheEntries.Set(0)
+	c := newCacheLimit("file", cfg, shards, ctx, dir, 1<<30)
+	defer c.Destroy()
+	put(c, cache.FromString("rf-other"), 60, 1)
+	k := cache.FromString("rf-key")
+	for round, n := range []int{40, 90} { // a new key, then (after a good store) an overwrite
+		if round == 1 {
+			put(c, k, 25, 2)
+		}
+		src := &vanishing{data: bytes.Repeat([]byte{'r'}, n), f: func() {
+			ents, _ := os.ReadDir(dir)
+			for _, e := range ents {
+				if strings.HasSuffix(e.Name(), ".tmp") {
+					os.Remove(filepath.Join(dir, e.Name()))
+				}
+			}
+		}}
+		e, err := c.Cache(k, src, time.Now().Add(time.Hour), meta{9, "v9"})
+		if err == nil {
+			if e.Data != nil {
+				e.Data.Close()
+			}
+			continue // this code does not fail here (another temp-file scheme): nothing to judge
+		}
+		stored, entries, bs, mb, me := counters(c)
+		var disk int64
+		files := 0
+		ents, _ := os.ReadDir(dir)
+		for _, de := range ents {
+			if fi, err := de.Info(); err == nil && !de.IsDir() {
+				disk += fi.Size()
+				files++
+			}
+		}
+		if bs != disk || mb != bs || me != int64(files) || stored != disk || entries != files {
+			return []failure{{"rename-fails", "file", shards, fmt.Sprintf("a store whose final rename failed reported an error; afterwards the directory holds %d bytes in %d files, the index %d bytes in %d entries, the byte counter says %d, the metrics %d bytes / %d entries", disk, files, stored, entries, bs, mb, me)}}
+		}
+	}
+	return nil
+}
+
+// budgetToZero (memory backend): the memory budget is changed to 0 % at run time with entries stored; whatever the cache
+// then does with its entries, the counters equal what is stored.
+func budgetToZero(shards int) []failure {
+	cfg := config.NewDefault()
+	ctx, cancel := context.WithCancel(context.Background())
+	defer cancel()
+	metrics.Global.Cache.BytesCached.Set(0)
+	metrics.Global.Cache.CacheEntries.Set(0)
+	cfg.Cache.MaxCacheSize.Overwrite(bytesize.ByteSize(1 << 30))
+	c := cache.NewMemoryCache[meta](cfg, 60, 1<<30, time.Hour, shards, ctx)
+	defer c.Destroy()
+	for i := 0; i < 3; i++ {
+		put(c, cache.FromString(fmt.Sprintf("bz-%d", i)), 100+i, i)
+	}
+	p := &cfg.Cache.Memory.MemoryBudgetPercent
+	p.Stage(0)
+	p.CommitStaged()
+	h := p.VerifEvent().VerifLast()
+	for dl := time.Now().Add(3 * time.Second); time.Now().Before(dl); time.Sleep(200 * time.Microsecond) {
+		if _, running, pending := p.VerifEvent().VerifSubState(h); !running && pending == 0 {
+			break
+		}
+	}
+	time.Sleep(2 * time.Millisecond)
+	put(c, cache.FromString("bz-after"), 50, 7) // refused or not: the counters must stay true
+	stored, entries, bs, mb, me := counters(c)
+	if bs != stored || mb != bs || me != int64(entries) {
+		return []failure{{"budget-to-zero", "memory", shards, fmt.Sprintf("memory budget changed to 0 %% at run time with 3 entries stored: afterwards %d bytes in %d entries are stored, the byte counter says %d, the metrics %d bytes / %d entries", stored, entries, bs, mb, me)}}
+	}
+	return nil
 }
 
 type onRecord struct {
@@ -334,6 +445,15 @@ func main() {
 				failures = append(failures, f...)
 				dist[fmt.Sprintf("evict-during-overwrite/%s/forced=%v", backend, forced)]++
 				total++
+				if backend == "file" {
+					failures = append(failures, renameFails(shards, dir+"-rf")...)
+					os.RemoveAll(dir + "-rf")
+					dist["rename-fails/file"]++
+				} else {
+					failures = append(failures, budgetToZero(shards)...)
+					dist["budget-to-zero/memory"]++
+				}
+				total++
 			case "C03":
 				failures = append(failures, lockWait(backend, shards, dir)...)
 				dist["lock-wait/"+backend] += 2
@@ -348,7 +468,7 @@ func main() {
 	}
 	out := map[string]any{
 		"harness": "cachesched/" + *flagProp, "seed": *flagSeed, "tier": *flagTier, "total": total, "distinct": total, "distinct_nontrivial": total,
-		"rule":         "forced schedules at the cache API, both backends, 1 and 8 lock shards: C03 lock-wait (Get / GetMetadata wait 400 ms for the entry's lock while the entry's 150 ms lifetime ends: must report stale); C13 overwrite-window (a store of another key between the two counter updates of an overwriting store, cache below its limit throughout: nothing evicted); C12 evict-during-overwrite (an eviction candidate overwritten with another length between scan and removal: counters equal what is stored); C06 update-during-store (UpdateMetadata issued while a full store of the same key is downloading: afterwards the key holds the new body with the new object metadata)",
+		"rule":         "forced schedules at the cache API, both backends, 1 and 8 lock shards: C03 lock-wait (Get / GetMetadata wait 400 ms for the entry's lock while the entry's 150 ms lifetime ends: must report stale); C13 overwrite-window (a store of another key between the two counter updates of an overwriting store, cache below its limit throughout: nothing evicted); C12 evict-during-overwrite (an eviction candidate overwritten with another length between scan and removal: counters equal what is stored), rename-fails (file: the temp file vanishes before the final rename, for a new key and for an overwrite) and budget-to-zero (memory: budget changed to 0 % at run time with entries stored); C06 update-during-store (UpdateMetadata issued while a full store of the same key is downloading: afterwards the key holds the new body with the new object metadata)",
 		"distribution": map[string]any{"scenario": dist},
 		"samples":      []any{map[string]any{"backend": "file", "shards": 1}},
 		"files":        []string{}, "readable": []any{},
